@@ -312,7 +312,8 @@ theorem Inv.ofSmpFrame {K : Crypto} {c c' : Conv} (h : Inv K c) (hf : SmpFrame c
 
 /-- the peer's disconnect TLV re-establishes the invariant trivially -/
 theorem Inv.disc {K : Crypto} {c : Conv} (h : Inv K c) :
-    Inv K { c with lastMessageStateChange := none, msgState := .finished, smp := {}, ake := none, keys := {} } := by
+    Inv K { c with lastMessageStateChange := none, msgState := .finished, smp := {}, ake := none,
+                   keys := { oldMACKeys := c.keys.oldMACKeys ++ c.keys.macHistory.map (·.key) } } := by
   refine ⟨by simp [SmpWF], by simp [SmpNumWF], by simp [SmpWaitWF], ?_, ?_, ?_⟩
   · intro he; cases he
   · intro a ha; cases ha
